@@ -43,6 +43,8 @@ W1 = [0, 0, [[0, 2, 1]], 1]
 W1b = [0, 0, [[0, 3, 2]], 1]
 WR = [0, 0, [[0, 2, 7]], 0]        # rollback
 WX = [0, 0, [[0, 2, 8]], 2]        # exception inside the with block: must roll back and wake the next writer
+WB = [0, 0, [[0, 2, 9]], 3]        # ... also when it is a BaseException (SystemExit in a worker thread)
+MANY = 40                          # writers queued at once behind one holder ("any number of concurrent writers")
 WREPL = [0, 1, [[0, 0, 5]], 1]     # replacement, sets a serial
 R = [1, None]
 RID = [1, 0, 2]
@@ -127,7 +129,7 @@ def gen_progs(rng, nthreads):
             for _ in range(rng.choice([0, 1, 1, 2, 3])):
                 k = rng.choice([0, 1, 2, 2, 3])
                 edits.append([1, k] if rng.random() < 0.25 else [0, k, rng.randrange(6)])
-            progs.append([0, int(rng.random() < 0.15), edits, rng.choice([1, 1, 1, 1, 1, 0, 2])])
+            progs.append([0, int(rng.random() < 0.15), edits, rng.choice([1, 1, 1, 1, 1, 0, 2, 3, 4, 5])])
         elif r < 0.85:
             x = rng.random()
             progs.append([1, None] if x < 0.6 else [1, 0, rng.randint(1, 4)] if x < 0.8 else [1, 1, rng.randint(0, 5)])
@@ -138,7 +140,7 @@ def gen_progs(rng, nthreads):
 
 def cases(ctx):
     rng = ctx.rng
-    configs = [[W1, W1b], [W1, WR], [WX, W1], [W0, W0, W0], [W0, W0, R], [W0, WR, P1], [WREPL, W1]]
+    configs = [[W1, W1b], [W1, WR], [WX, W1], [WB, W1b], [W0, W0, W0], [W0, W0, R], [W0, WR, P1], [WREPL, W1]]
     if not ctx.quick:
         configs += [[W1, W0, R], [W1, W1b, WR], [W1, W0, RID], [W0, W0, W0, R], [W1, WR, PN, R]]
     total = 0
@@ -165,6 +167,14 @@ def cases(ctx):
             break
         scopes.append(f"{n}{'+' if n >= cap else ''} schedules of {len(progs)} threads {progs}")
         total += n
+    # one schedule with MANY writers blocked at the same time behind one holder; they must be woken and
+    # admitted one by one in arrival order
+    progs = [W1] + [[0, 0, [[0, 3, t]], 1] if t % 5 else W0 for t in range(1, MANY + 1)]
+    prefix = [0, 0, 0] + [t for t in range(1, MANY + 1) for _ in range(3)]
+    sched, views, _, info = run_schedule(0, progs, prefix=prefix, max_steps=40 * (MANY + 2))
+    case = [0, progs, sched]
+    _cache[repr(case)] = (views, info)
+    yield "many-waiters", case
     ctx.notes["exhaustive"] = True
     ctx.notes["exhaustive_scope"] = "every schedule (one lock/event operation per step) of: " + "; ".join(scopes)
     for i in range(ctx.n(200, 1500)):
@@ -269,6 +279,11 @@ def oracle(ctx, kind, case, out):
         if wevent is not None and wevent not in waited:
             fail("lost wake-up: _write_event is an event no writer waits on", i, event=wevent)
             return F
+        for x in writers:
+            if codes[x] == 5 and pcs[x][1] not in setev and pcs[x][1] not in waiters and pcs[x][1] != wevent:
+                fail("a waiting writer's event is neither queued nor the wake-up token: it can never be woken", i,
+                     thread=x, event=pcs[x][1])
+                return F
         stale = [e for e in waiters if e not in waited]
         if stale:
             fail("stale event in _write_waiters: no writer waits on it (its wake-up will be lost)", i, events=stale)
